@@ -70,6 +70,9 @@ FAMILIES = ["poly", "exp", "sin", "cos", "lorentz", "gauss", "sqrt_end", "power"
             # integrands that are EXACTLY 0.0 on a stretch of the range (an all-zero interval makes
             # c_diff == hint * norm(c) == 0, the boundary case of the "refinement did not help" test)
             "zgauss", "step0", "ramp", "bump",
+            # integrable peak that takes > 20 bisections to locate, most of them doubling the local average
+            # (the divergence heuristic ndiv must NOT fire): Lorentzian of width 1e-5 .. 1e-9 of the range
+            "nlorentz",
             "divergent"]
 # families the accuracy clause quantifies over (divergent only shows the exception is reachable)
 CONVERGENT = [f for f in FAMILIES if f != "divergent"]
@@ -105,6 +108,9 @@ def draw(family: str, rng, dyadic: bool = False) -> dict:
         p["s"] = w * 10.0 ** rng.uniform(-1.7, 0.3)
     elif family == "sqrt_end":
         pass
+    elif family == "nlorentz":         # g / ((x - x0)^2 + g^2), g = 1e-5 .. 1e-9 of the range, centre at a non-dyadic point
+        p["g"] = w * 10.0 ** rng.uniform(-9, -5)
+        p["x0"] = a + w * rng.choice([0.11, 0.23, 0.41, 0.52, 0.77, 0.83, 0.94, rng.uniform(0.05, 0.95)])
     elif family == "zgauss":           # exp(-((x-x0)/s)^2), so narrow that the tails underflow to 0.0 (beyond ~27.3 s)
         p["s"] = w / rng.uniform(35, 60)
         p["x0"] = a + w * rng.choice([rng.uniform(0.03, 0.2), rng.uniform(0.8, 0.97), 0.2, 0.1])
@@ -172,6 +178,10 @@ def build(family: str, p: dict) -> Member:
         return Member(family, p, lambda x: math.exp(-((x - x0) ** 2) / (2 * s * s)), ex, a, b)
     if family == "sqrt_end":
         return Member(family, p, lambda x: math.sqrt(abs(x - a)), 2.0 / 3.0 * (b - a) ** 1.5, a, b)
+    if family == "nlorentz":
+        x0, g = float(p["x0"]), float(p["g"])
+        ex = math.atan((b - x0) / g) - math.atan((a - x0) / g)
+        return Member(family, p, lambda x: g / ((x - x0) ** 2 + g * g), ex, a, b)
     if family == "zgauss":
         x0, sg = float(p["x0"]), float(p["s"])
         ex = sg * math.sqrt(math.pi) / 2 * _erf_diff((a - x0) / sg, (b - x0) / sg)
